@@ -210,19 +210,19 @@ package rapid
 //@   requires [C14] unlocked(t)
 //@   ensures drawn >= old(drawn) && relyUser(t)
 //@   panics any: drawn >= old(drawn) && relyUser(t)
-//@   modifies drawn, t.failed, t.cleanups, elems(t.cleanups), t.ctx, t.cancelCtx, t.draws
+//@   modifies drawn, t.failed, t.cleanups, elems(t.cleanups), t.ctx, t.cancelCtx, t.draws, stream(t.s)
 
 //@ callback func(*T) V
 //@   params fn, t
 //@   ensures drawn >= old(drawn) && relyUser(t)
 //@   panics any: drawn >= old(drawn) && relyUser(t)
-//@   modifies drawn, t.failed, t.cleanups, elems(t.cleanups), t.ctx, t.cancelCtx, t.draws
+//@   modifies drawn, t.failed, t.cleanups, elems(t.cleanups), t.ctx, t.cancelCtx, t.draws, stream(t.s)
 
 //@ callback func(*T) (V, bool)
 //@   params fn, t
 //@   ensures drawn >= old(drawn) && relyUser(t)
 //@   panics any: drawn >= old(drawn) && relyUser(t)
-//@   modifies drawn, t.failed, t.cleanups, elems(t.cleanups), t.ctx, t.cancelCtx, t.draws
+//@   modifies drawn, t.failed, t.cleanups, elems(t.cleanups), t.ctx, t.cancelCtx, t.draws, stream(t.s)
 
 // pure user functions (keys, predicates, mappers): no access to a *T, may panic
 //@ callback func(E) K
@@ -244,7 +244,7 @@ package rapid
 //@   ensures t.failed == old(t.failed)
 //@   ensures drawn >= old(drawn) && relyUser(t)
 //@   panics any: drawn >= old(drawn) && relyUser(t)
-//@   modifies drawn, t.failed, t.cleanups, elems(t.cleanups), t.ctx, t.cancelCtx, t.draws
+//@   modifies drawn, t.failed, t.cleanups, elems(t.cleanups), t.ctx, t.cancelCtx, t.draws, stream(t.s)
 
 //@ func generatorImpl.String
 //@   params impl
@@ -254,12 +254,13 @@ package rapid
 //@   modifies g.str, g.strOnce
 
 //@ func (*Generator).value
+//@   noframe "runs the generator implementation, which may run user code"
 //@   assumes "generator implementations signal a failure only by panicking, never by recording it on the enclosing *T"
 //@   ensures t.failed == old(t.failed)
 //@   ensures [C03] drawn > old(drawn)
 //@   ensures relyUser(t)
 //@   panics any: drawn >= old(drawn) && relyUser(t)
-//@   modifies drawn, t.failed, t.cleanups, elems(t.cleanups), t.ctx, t.cancelCtx, t.draws
+//@   modifies drawn, t.failed, t.cleanups, elems(t.cleanups), t.ctx, t.cancelCtx, t.draws, stream(t.s)
 
 // ---------------------------------------------------------------------------------------------
 // collections.go
@@ -296,7 +297,7 @@ package rapid
 //@   noframe "calls an arbitrary generator attempt function"
 //@   requires [C03] tries >= 0 && gen != nil
 //@   panics any: true
-//@   modifies drawn, t.failed, t.cleanups, t.ctx, t.cancelCtx, t.draws
+//@   modifies drawn, t.failed, t.cleanups, t.ctx, t.cancelCtx, t.draws, stream(t.s)
 //@   loop 0 invariant [C03] 0 <= n && n <= tries
 //@   loop 0 decreases tries - n
 
@@ -546,13 +547,14 @@ package rapid
 //@   ensures [C02] implies(result != nil, fresh(result) && result.data == p)
 
 //@ func checkOnce
+//@   noframe "runs the property function"
 //@   requires [C10,C11] clean(t) && unlocked(t) && prop != nil
 //@   ensures [C10,C11] len(t.cleanups) == 0 && t.ctx == nil && t.cancelCtx == nil && !cleaning(t) && unlocked(t)
 //@   ensures [C02,C11] implies(result == nil, t.failed == "")
 //@   ensures [C02,C11] implies(result != nil && isInvalidData(result.data), t.failed == "")
 //@   ensures [C02] implies(result != nil, fresh(result))
 //@   ensures drawn >= old(drawn)
-//@   modifies t.failed, t.cleanups, elems(t.cleanups), t.ctx, t.cancelCtx, t.cleaning.v, t.draws, drawn, lockmode[addr(t.mu)]
+//@   modifies t.failed, t.cleanups, elems(t.cleanups), t.ctx, t.cancelCtx, t.cleaning.v, t.draws, drawn, lockmode[addr(t.mu)], stream(t.s)
 
 // ---------------------------------------------------------------------------------------------
 // combinators.go: Custom
@@ -563,7 +565,7 @@ package rapid
 //@   ensures [C02] now(t).failed == ""
 //@   ensures [C10,C11] fresh(now(t)) && len(now(t).cleanups) == 0 && now(t).ctx == nil && now(t).cancelCtx == nil
 //@   panics any [C02]: true
-//@   modifies drawn
+//@   modifies drawn, stream(t.s)
 
 // ---------------------------------------------------------------------------------------------
 // statemachine.go
@@ -578,7 +580,7 @@ package rapid
 //@   requires [C08] t.failed == "" && unlocked(t)
 //@   ensures [C02,C08] t.failed == "" && implies(skipped, invalid) && unlocked(t) && drawn >= old(drawn)
 //@   panics any [C02,C08]: unlocked(t) && implies(isInvalidData(panicval), t.failed != "")
-//@   modifies drawn, t.failed, t.cleanups, elems(t.cleanups), t.ctx, t.cancelCtx, t.draws, lockmode[addr(t.mu)]
+//@   modifies drawn, t.failed, t.cleanups, elems(t.cleanups), t.ctx, t.cancelCtx, t.draws, lockmode[addr(t.mu)], stream(t.s)
 
 //@ func (*Generator).Draw
 //@   assumes-pre len(t.refDraws) == 0
@@ -587,7 +589,7 @@ package rapid
 //@   ensures t.failed == old(t.failed)
 //@   ensures drawn >= old(drawn) && relyUser(t)
 //@   panics any: drawn >= old(drawn) && relyUser(t)
-//@   modifies drawn, t.failed, t.cleanups, elems(t.cleanups), t.ctx, t.cancelCtx, t.draws
+//@   modifies drawn, t.failed, t.cleanups, elems(t.cleanups), t.ctx, t.cancelCtx, t.draws, stream(t.s)
 
 //@ func (*stateMachine).executeAction
 //@   noframe "calls user actions"
@@ -595,7 +597,7 @@ package rapid
 //@   ensures [C02,C08] t.failed == "" && unlocked(t) && drawn >= old(drawn)
 //@   ensures [C08] now(n) < validActionTries
 //@   panics any [C08]: true
-//@   modifies drawn, t.failed, t.cleanups, elems(t.cleanups), t.ctx, t.cancelCtx, t.draws, lockmode[addr(t.mu)]
+//@   modifies drawn, t.failed, t.cleanups, elems(t.cleanups), t.ctx, t.cancelCtx, t.draws, lockmode[addr(t.mu)], stream(t.s)
 //@   loop 0 invariant [C08] 0 <= n && n <= validActionTries && t.failed == "" && unlocked(t) && drawn >= old(drawn)
 //@   loop 0 decreases validActionTries - n
 
@@ -606,7 +608,7 @@ package rapid
 //@   requires [C08] pendingCheck
 //@   ensures [C08] t.failed == "" && unlocked(t)
 //@   panics any [C08]: true
-//@   modifies drawn, pendingCheck, t.failed, t.cleanups, elems(t.cleanups), t.ctx, t.cancelCtx, t.draws, lockmode[addr(t.mu)]
+//@   modifies drawn, pendingCheck, t.failed, t.cleanups, elems(t.cleanups), t.ctx, t.cancelCtx, t.draws, lockmode[addr(t.mu)], stream(t.s)
 //@   at sm.check#0 assert [C08] pendingCheck && t.failed == ""
 //@   at sm.check#0 set pendingCheck = false
 //@   at repeat.more#0 assert [C08] !pendingCheck
